@@ -44,6 +44,7 @@ type RunResult struct {
 	Overrun   []int // tasks that exceeded their step budget (never resumed)
 	Panics    map[int]string
 	Conflicts []Conflict
+	Log       []AccessRec // when LogAccesses
 }
 
 var (
@@ -191,6 +192,9 @@ func RunTasks(fns []func(), budget []int64, choose Chooser) RunResult {
 		close(finish) // otherwise stuck tasks stay parked for the life of the process
 	}
 	res.Conflicts = shadowConflicts()
+	if LogAccesses {
+		res.Log = accessLog
+	}
 	shadowReset()
 	return res
 }
